@@ -507,13 +507,19 @@ class Ctx:
                 ln = self.len_sym(m.group(1))
                 add(ln - Poly.const(1) - Poly.sym(name))
                 add(Poly.sym(name))
-            if name.startswith("(Iterator::position(") or name.startswith("(Iterator::rposition("):
+            if name.startswith(("(Iterator::position(", "(Iterator::rposition(", "Option::<T>::unwrap(Iterator::position(", "Option::<T>::unwrap(Iterator::rposition(",
+                                "Option::<T>::expect(Iterator::position(", "Option::<T>::expect(Iterator::rposition(")):
                 # structural: the index found in s[lo..hi] (any spelling of the sub-sequence) is < hi - lo and < len(s) - lo
+                # (`(pos as Some).0` behind a guard, or the value `pos.unwrap()` returns when it returns)
                 tq_ = sy.sym_terms.get(name)
                 if tq_ is not None:
                     xq_ = unmut(tq_)
+                    cq_ = None
                     if xq_[0] == "field" and xq_[2] == 0 and unmut(xq_[1])[0] == "downcast":
                         cq_ = unmut(unmut(xq_[1])[1])
+                    elif xq_[0] == "call" and short(xq_[1]) in ("Option::<T>::unwrap", "Option::<T>::expect") and xq_[2]:
+                        cq_ = unmut(xq_[2][0])
+                    if cq_ is not None:
                         if cq_[0] == "call" and short(cq_[1]) in ("Iterator::position", "Iterator::rposition") and len(cq_[2]) == 2:
                             from . import quant as _quant
                             psq = _quant.parse_seq(self.prog, self.an, sy, cq_[2][0])
@@ -1435,6 +1441,12 @@ def rule_capacity(ctx, o):
         return False, "capacity not polynomial"
     lim = ((1 << 63) - 1) // esz if esz else (1 << 40)
     ok, how = ctx.in_range(o.bb, p, 0, lim)
+    if not ok:
+        # `Vec::with_capacity(v.len())`: as many elements as a collection that already exists in memory — the same
+        # allocation class as `v.iter().map(..).collect()` (audited-total: allocation failure is out of scope)
+        syms = list(p.syms())
+        if len(syms) == 1 and syms[0].startswith("len(") and p == Poly.sym(syms[0]):
+            return True, "capacity = length of an existing in-memory sequence %s (allocation class of collect())" % syms[0][:60]
     return ok, ("capacity <= %d: %s" % (lim, how))
 
 
